@@ -291,6 +291,9 @@ class State:
         self.counter = 0
         self.kind_refine: Dict[tuple, str] = {}
         self.type_dims: Dict[str, dict] = {}
+        self.type_defs: Dict[str, object] = {}
+        self.cls_fields: Dict[tuple, object] = {}
+        self.known_absent = set()
         self.notes: List[str] = []
 
     # -- fresh ids
@@ -344,11 +347,30 @@ class State:
         ta, tb = self.types[a], self.types[b]
         if ta.generic != tb.generic:
             return False
+        # a type whose dimension vector is known to be composite differs from a type of another dimension
+        da = self._explicit_dims(a)
+        db = self._explicit_dims(b)
+        if da is not None or db is not None:
+            xa = da if da is not None else {a: (1, 0)}
+            xb = db if db is not None else {b: (1, 0)}
+            if xa != xb:
+                return False
         for attr in ("has_ref", "has_quantum", "money"):
             x, y = getattr(ta, attr), getattr(tb, attr)
             if x is not None and y is not None and x != y:
                 return False
         return None
+
+    def _explicit_dims(self, tid):
+        d = self.type_dims.get(tid)
+        if d is None:
+            return None
+        out = {}
+        for k, e in d.items():
+            k2 = self.tfind(k) if k in self.tparent else k
+            o = out.get(k2, (0, 0))
+            out[k2] = (o[0] + e[0], o[1] + e[1])
+        return {k: e for k, e in out.items() if e != (0, 0)}
 
     def unify_types(self, a, b):
         a, b = self.tfind(a), self.tfind(b)
